@@ -425,7 +425,11 @@ def Q_elements_from_wavelength(
     e_f = scattered_beam / sc.norm(scattered_beam)
     e = e_i - e_f
     k = 2 * np.pi / wavelength
-    return {'Qx': k * e.fields.x, 'Qy': k * e.fields.y, 'Qz': k * e.fields.z}
+    return {
+        'Qx': as_float_type(k * e.fields.x, wavelength),
+        'Qy': as_float_type(k * e.fields.y, wavelength),
+        'Qz': as_float_type(k * e.fields.z, wavelength),
+    }
 
 
 def dspacing_from_wavelength(*, wavelength: Variable, two_theta: Variable) -> Variable:
